@@ -33,6 +33,7 @@ type faultReader struct {
 	delivered []byte
 	calls     int
 	toggle    bool
+	errored   bool // the reader has handed an error to its caller
 }
 
 func (f *faultReader) Read(p []byte) (int, error) {
@@ -53,6 +54,7 @@ func (f *faultReader) Read(p []byte) (int, error) {
 	if f.failAfter >= 0 {
 		left := f.failAfter - len(f.delivered)
 		if left <= 0 {
+			f.errored = true
 			return 0, f.err
 		}
 		if n >= left {
@@ -60,6 +62,11 @@ func (f *faultReader) Read(p []byte) (int, error) {
 			f.src.Read(p[:n])
 			f.delivered = append(f.delivered, p[:n]...)
 			if f.withLast {
+				// an error handed over with the bytes that complete a 32-byte draw is dropped by
+				// io.ReadFull, legitimately; anywhere else the caller has to report it
+				if len(f.delivered)%32 != 0 {
+					f.errored = true
+				}
 				return n, f.err
 			}
 			return n, nil
@@ -70,7 +77,7 @@ func (f *faultReader) Read(p []byte) (int, error) {
 	return n, nil
 }
 
-var c20Ops = []string{"Builder.Build(WithRNG)", "New(rng)", "Append(built parent)", "Append(re-loaded parent)"}
+var c20Ops = []string{"Builder.Build(WithRNG)", "New(rng)", "Append(built parent)", "Append(re-loaded parent)", "Append(built parent, source replays the parent's stream)", "Append(re-loaded parent, source replays the parent's stream)"}
 var c20Errs = []error{io.EOF, io.ErrUnexpectedEOF, errEntropy}
 var c20Deliveries = []string{"one-read", "byte-per-read", "zero-length-reads-interleaved"}
 
@@ -81,6 +88,13 @@ func c20Run(c *core.C) {
 	op := c.Idx / perOp
 	rest := c.Idx % perOp
 	fr := &faultReader{src: lib.NewDetRand(c.Seed, fmt.Sprintf("c20-%d", c.Idx)), failAfter: -1}
+	replay := op >= 4
+	if replay {
+		// the source replays the stream the parent was built from: its first 32 bytes are the
+		// secret the parent already carries, and the fault sits in the SECOND 32 bytes - a
+		// library that draws again must still report the error it is handed
+		fr.src = lib.NewDetRand(c.Seed, fmt.Sprintf("c20-parent-%d", c.Idx))
+	}
 	desc := map[string]any{"kind": "fault case", "operation": c20Ops[op]}
 	var delivery int
 	if rest < len(c20Deliveries) {
@@ -94,6 +108,9 @@ func c20Run(c *core.C) {
 		rest /= 2
 		fr.err = c20Errs[rest%len(c20Errs)]
 		fr.failAfter = rest / len(c20Errs)
+		if replay {
+			fr.failAfter += 32
+		}
 		desc["failure"] = fmt.Sprintf("after %d bytes: %v (error with last bytes: %v)", fr.failAfter, fr.err, fr.withLast)
 	}
 	desc["delivery"] = c20Deliveries[delivery]
@@ -124,13 +141,13 @@ func c20Run(c *core.C) {
 			bb := biscuit.NewBlockBuilder(&datalog.SymbolTable{})
 			lib.FillBlock(bb, blk)
 			tok, err = biscuit.New(fr, priv, &datalog.SymbolTable{}, bb.Build())
-		case 2, 3:
+		case 2, 3, 4, 5:
 			parent, perr := lib.Build(priv, lib.NewDetRand(c.Seed, fmt.Sprintf("c20-parent-%d", c.Idx)), []ast.Block{blk}, nil)
 			if perr != nil {
 				err = perr
 				return
 			}
-			if op == 3 {
+			if op == 3 || op == 5 {
 				parent, perr = parent.Reload()
 				if perr != nil {
 					err = perr
@@ -145,6 +162,11 @@ func c20Run(c *core.C) {
 	desc["delivered_bytes"] = len(fr.delivered)
 	desc["read_calls"] = fr.calls
 	failing := fr.failAfter >= 0
+	if replay {
+		// the fault lies beyond the 32 bytes one key needs: it only counts once the library
+		// has actually been handed the error
+		failing = fr.errored
+	}
 	key := fmt.Sprintf("%s/k=%d", c20Ops[op], fr.failAfter)
 	switch {
 	case pi != nil:
@@ -163,15 +185,21 @@ func c20Run(c *core.C) {
 			c.Violate("control-undecodable", derr.Error(), desc)
 			break
 		}
-		if len(fr.delivered) != 32 {
+		if len(fr.delivered) != 32 && !(replay && len(fr.delivered) > 0 && len(fr.delivered)%32 == 0) {
 			c.Violate("unexpected-entropy-consumption", fmt.Sprintf("%d bytes drawn", len(fr.delivered)), desc)
 		}
 		all := env.All()
 		last := all[len(all)-1]
-		if env.ProofKind != wire.ProofSecret || !bytes.Equal(env.Proof, fr.delivered[:min(32, len(fr.delivered))]) {
+		// the seed is the last complete 32-byte draw (a library may draw more than once from a
+		// replaying source; from any other source exactly one draw is expected, checked above)
+		seed := fr.delivered[:min(32, len(fr.delivered))]
+		if replay && len(fr.delivered) >= 64 {
+			seed = fr.delivered[len(fr.delivered)/32*32-32 : len(fr.delivered)/32*32]
+		}
+		if env.ProofKind != wire.ProofSecret || !bytes.Equal(env.Proof, seed) {
 			c.Violate("proof-secret-not-from-source", "the next secret is not the 32 bytes the source delivered", desc)
 		} else {
-			want := ed25519.NewKeyFromSeed(fr.delivered[:32]).Public().(ed25519.PublicKey)
+			want := ed25519.NewKeyFromSeed(seed).Public().(ed25519.PublicKey)
 			if !bytes.Equal(want, last.Key) {
 				c.Violate("next-key-not-from-source", "the announced next key is not the public key of the delivered seed", desc)
 			}
@@ -198,7 +226,7 @@ func init() {
 	core.Register(&core.Prop{
 		ID:    "C20",
 		Level: "fault_enumeration",
-		Rule: fmt.Sprintf("exhaustive fault enumeration (complete in both tiers, %d cases): operation in {Builder.Build with WithRNG, New(rng,...), Append on a built parent, Append on a re-loaded parent} x failure point k in 0..31 delivered bytes x error in {io.EOF, io.ErrUnexpectedEOF, custom} x {error on the next read, error together with the last bytes} x delivery in {one read, one byte per read, zero-length reads interleaved}, plus the no-failure control of every delivery. Oracle: a failing source must give an error and no token (and no panic); a returned token must carry exactly the delivered 32 bytes as next secret, announce the public key of that seed and verify under the independent chain verifier. ", c20Total()) +
+		Rule: fmt.Sprintf("exhaustive fault enumeration (complete in both tiers, %d cases): operation in {Builder.Build with WithRNG, New(rng,...), Append on a built parent, Append on a re-loaded parent, and both Appends again with a source that REPLAYS the stream the parent was built from (its first 32 bytes are the secret the parent already carries; failure points 32..63, so a library that draws a second time is handed the error)} x failure point k in 0..31 delivered bytes x error in {io.EOF, io.ErrUnexpectedEOF, custom} x {error on the next read, error together with the last bytes} x delivery in {one read, one byte per read, zero-length reads interleaved}, plus the no-failure control of every delivery. Oracle: a source that handed the library an error must give an error and no token (and no panic); a returned token must carry exactly the delivered 32 bytes as next secret, announce the public key of that seed and verify under the independent chain verifier. ", c20Total()) +
 			"Non-trivial = distinct (operation, k, error, timing, delivery) tuples; every one injects a real fault or is a control.",
 		Assumptions: []string{"crypto/ed25519.GenerateKey draws exactly 32 bytes from the supplied reader with io.ReadFull (true for the pinned toolchain go1.23)"},
 		NumCases:    func(string) int { return c20Total() },
